@@ -93,6 +93,13 @@ def madgwick(chk, prog):
         chk.touch(f)
         kw = dict(module=f.module.rel, function=f.qname, line=f.node.lineno)
         names = _grad_names(f, prog)
+        owner = f
+        if names is None and f.cls is not None:
+            # the correction step may live in a private method that builds J and f itself
+            for g_ in f.cls.methods.values():
+                if g_.name.startswith("_") and _jtf(g_.node):
+                    names, owner = _jtf(g_.node), g_
+                    break
         if names is None:
             chk.error("Madgwick.%s: the gradient statement `J.T @ f` was not found" % meth)
             continue
@@ -113,15 +120,15 @@ def madgwick(chk, prog):
                 return vec_norm(x, axis=kwargs.get("axis"))
             ov = {}
             if marg:
-                nx, nz = _field_names(f)
+                nx, nz = _field_names(owner)
                 if nx is None or nz is None:
                     raise AssertionError("field component locals not found")
-                ov = {(f.ref, nx): bx, (f.ref, nz): bz}
+                ov = {(owner.ref, nx): bx, (owner.ref, nz): bz}
             it = Interp(prog, oracle=lambda c, i: True if c.op in (">",) else None, intercepts={"np.linalg.norm": norm1}, config={"override_locals": ov})
             obj = it.make_obj(F + "madgwick.py::Madgwick", Dt=dt, gain=P.sym("gain"))
             args = [qs.copy(), w, a] + ([m] if marg else [])
             it.run(f, args, {"dt": dt}, self_obj=obj)
-            env = it.last_env.vars
+            env = it.envs_by_func[owner.ref].vars
             return to_obj(env[fn_]), to_obj(env[Jn])
 
         def jac():
@@ -143,7 +150,7 @@ def madgwick(chk, prog):
             obj = it.make_obj(F + "madgwick.py::Madgwick", Dt=dt, gain=P.sym("gain"))
             args = [q.copy(), w, E.T @ np.array([P.ZERO, P.ZERO, P.ONE], dtype=object)] + ([E.T @ ref] if marg else [])
             it.run(f, args, {"dt": dt}, self_obj=obj)
-            fv = to_obj(it.last_env.vars[fn_])
+            fv = to_obj(it.envs_by_func[owner.ref].vars[fn_])
             return eq(fv, np.array([P.ZERO] * len(fv), dtype=object), "f at the truth")
         chk.ob("EQUILIBRIUM", f.ref, "objective f == 0 for a = E(q)^T e3%s" % (", m = E(q)^T (bx, 0, bz)" if marg else ""), equilibrium, construct="objective vanishes at the truth", **kw)
         def step():
@@ -165,15 +172,15 @@ def madgwick(chk, prog):
                 return sy
             ov = {}
             if marg:
-                nx, nz = _field_names(f)
+                nx, nz = _field_names(owner)
                 if nx is None or nz is None:
                     return (None, "field component locals not found")
-                ov = {(f.ref, nx): bx, (f.ref, nz): bz}
+                ov = {(owner.ref, nx): bx, (owner.ref, nz): bz}
             it = Interp(prog, oracle=lambda c, i: True if c.op in (">",) else None, intercepts={"np.linalg.norm": norm_sym}, config={"override_locals": ov})
             obj = it.make_obj(F + "madgwick.py::Madgwick", Dt=dt, gain=P.sym("gain"))
             args = [qs.copy(), w, a] + ([m] if marg else [])
             out = to_obj(it.run(f, args, {"dt": dt}, self_obj=obj))
-            env = it.last_env.vars
+            env = it.envs_by_func[owner.ref].vars
             fv, J = to_obj(env[fn_]), to_obj(env[Jn])
             g = J.T @ fv
             ng = nq = None
